@@ -43,26 +43,30 @@ type Node struct {
 	Minor  uint32            `json:"mi,omitempty"`
 	Xattrs map[string][]byte `json:"x,omitempty"`
 	LinkTo string            `json:"h,omitempty"` // hard link to the earlier regular file at this path
+	// MtimeFar, if non-zero, is the entry's mtime in whole seconds (the nanosecond
+	// part still comes from Mtime): instants outside what int64 nanoseconds can hold
+	MtimeFar int64 `json:"tf,omitempty"`
 }
 
 type nodeJSON struct {
-	Path   BStr              `json:"p"`
-	Kind   Kind              `json:"k"`
-	Perm   uint32            `json:"m"`
-	Uid    uint32            `json:"u,omitempty"`
-	Gid    uint32            `json:"g,omitempty"`
-	Mtime  int64             `json:"t,omitempty"`
-	Seed   uint32            `json:"s,omitempty"`
-	Size   int               `json:"z,omitempty"`
-	Target BStr              `json:"l,omitempty"`
-	Major  uint32            `json:"ma,omitempty"`
-	Minor  uint32            `json:"mi,omitempty"`
-	Xattrs map[string][]byte `json:"x,omitempty"`
-	LinkTo BStr              `json:"h,omitempty"`
+	Path     BStr              `json:"p"`
+	Kind     Kind              `json:"k"`
+	Perm     uint32            `json:"m"`
+	Uid      uint32            `json:"u,omitempty"`
+	Gid      uint32            `json:"g,omitempty"`
+	Mtime    int64             `json:"t,omitempty"`
+	Seed     uint32            `json:"s,omitempty"`
+	Size     int               `json:"z,omitempty"`
+	Target   BStr              `json:"l,omitempty"`
+	Major    uint32            `json:"ma,omitempty"`
+	Minor    uint32            `json:"mi,omitempty"`
+	Xattrs   map[string][]byte `json:"x,omitempty"`
+	LinkTo   BStr              `json:"h,omitempty"`
+	MtimeFar int64             `json:"tf,omitempty"`
 }
 
 func (n Node) MarshalJSON() ([]byte, error) {
-	return json.Marshal(nodeJSON{BStr(n.Path), n.Kind, n.Perm, n.Uid, n.Gid, n.Mtime, n.Seed, n.Size, BStr(n.Target), n.Major, n.Minor, n.Xattrs, BStr(n.LinkTo)})
+	return json.Marshal(nodeJSON{BStr(n.Path), n.Kind, n.Perm, n.Uid, n.Gid, n.Mtime, n.Seed, n.Size, BStr(n.Target), n.Major, n.Minor, n.Xattrs, BStr(n.LinkTo), n.MtimeFar})
 }
 
 func (n *Node) UnmarshalJSON(dt []byte) error {
@@ -70,7 +74,7 @@ func (n *Node) UnmarshalJSON(dt []byte) error {
 	if err := json.Unmarshal(dt, &j); err != nil {
 		return err
 	}
-	*n = Node{string(j.Path), j.Kind, j.Perm, j.Uid, j.Gid, j.Mtime, j.Seed, j.Size, string(j.Target), j.Major, j.Minor, j.Xattrs, string(j.LinkTo)}
+	*n = Node{string(j.Path), j.Kind, j.Perm, j.Uid, j.Gid, j.Mtime, j.Seed, j.Size, string(j.Target), j.Major, j.Minor, j.Xattrs, string(j.LinkTo), j.MtimeFar}
 	return nil
 }
 
@@ -274,6 +278,7 @@ type TreeCfg struct {
 	LongNames       bool
 	BadUTF8         bool
 	SymTargets      []string // extra symlink targets
+	FarTimes        bool     // some entries get mtimes in the years 2300 or 2400 (beyond int64 nanoseconds)
 	UncleanTargets  bool     // also spell some symlink targets uncleanly ("a/", "./a", "a//b", "../../"): target strings must survive verbatim
 	Caps            bool     // give some regular files a security.capability xattr (file capabilities)
 	SiblingSuffixes []string // suffixes for order-sensitive sibling names (nil = default set)
@@ -430,6 +435,12 @@ func GenTree(t *rapid.T, cfg TreeCfg, label string) *Tree {
 		nd.Uid = rapid.SampledFrom(uids).Draw(t, li+".uid")
 		nd.Gid = rapid.SampledFrom(uids).Draw(t, li+".gid")
 		nd.Mtime = genMtime(t, li+".mt")
+		if cfg.FarTimes && rapid.IntRange(0, 7).Draw(t, li+".far") == 0 {
+			nd.MtimeFar = rapid.SampledFrom([]int64{10_413_792_000, 13_569_465_600}).Draw(t, li+".fartime") // 2300, 2400: beyond int64 ns, within what tmpfs and ext4 store
+			if nd.Mtime < 0 {
+				nd.Mtime = -nd.Mtime
+			}
+		}
 		switch nd.Kind {
 		case KFile:
 			if cfg.Hardlinks && len(files) > 0 && rapid.IntRange(0, 3).Draw(t, li+".islink") == 0 {
